@@ -79,9 +79,10 @@ def unit_scan(prop, tier=None, seed=None):
         S.ensure("requested_number_of_samples", z3.And(depths.len_term() == ns, emod.len_term() == ns), case=case)
         dj = V.rterm(depths.at(j))
         want = z3.If(ns > 1, xmin + z3.ToReal(j) * (xmin * z3.RealVal("0.05") - xmin) / z3.ToReal(ns - 1), xmin)
-        if prop == "C11":
-            # k-independence of the scan, stated through nanite's documented grid: it is a function of the MEASURED
-            # abscissa alone (C05 itself only asks for a monotonic grid inside the scanned depths, below)
+        if prop in ("C11", "C12"):
+            # k-independence of the scan (C11) and independence of the lower range bound, which the hash ignores
+            # with the plateau search on (C12), stated through nanite's documented grid: it is a function of the
+            # MEASURED abscissa alone (C05 itself only asks for a monotonic grid inside the scanned depths, below)
             S.ensure("depth_grid_from_deepest_measured_point_to_5_percent",
                      z3.Implies(z3.And(j >= 0, j < ns), dj == want), extra=defs, case=case)
         # monotonic grid inside the scanned depths (consequence, stated because the property does)
@@ -122,6 +123,28 @@ def replay_scan(ob):
     warnings.simplefilter("ignore")
     data = os.path.join(os.environ.get("VF_REPO", "/repo"), "tests", "data", "fmt-jpk-fd_spot3-0192.jpk-force")
     P = ["compute_tip_position", "correct_force_offset", "correct_tip_offset"]
+    if "no_stale_results" in ob.oid:
+        # an approach segment of a few samples: scan passes succeed, the final fit has too few points
+        for keep in (12, 16, 20):
+            cur = nanite.IndentationGroup(data)[0]
+            cur.apply_preprocessing(P)
+            sg = np.array(cur["segment"]).copy()
+            idx = np.where(sg == 0)[0]
+            sg[idx[:-keep]] = 1
+            cur["segment"] = sg
+            try:
+                cur.fit_model(model_key="hertz_para", optimal_fit_edelta=True, optimal_fit_num_samples=8,
+                              range_x=(0, 0), segment=0)
+            except BaseException:
+                continue
+            fp = cur.fit_properties
+            left = [k_ for k_ in ("params_fitted", "chi_sqr", "xmin", "xmax") if k_ in fp]
+            if not fp["success"] and left:
+                return {"confirmed": True, "input": {"approach samples": keep, "optimal_fit_edelta": True,
+                                                     "optimal_fit_num_samples": 8},
+                        "observed": {"success": False, "result keys left behind": left},
+                        "required": "an unsuccessful fit shows no numbers of another pass"}
+        return {"confirmed": False}
     for k in (1.0, 0.5, 2.0):
         cur = nanite.IndentationGroup(data)[0]
         cur.apply_preprocessing(P)
@@ -160,6 +183,9 @@ def unit_fit_plateau(prop, tier=None, seed=None):
 
         def scan(I, self, callback=None):
             st["scan_called_with_flag"] = self.attrs["optimal_fit_edelta"]
+            # (the scan fits once per depth and leaves the result keys of its last successful pass behind)
+            for rk in ("params_fitted", "chi_sqr", "xmin", "xmax"):
+                self.attrs["fp"].map.d[rk] = [True, sx.Opaque(f"scan leftover: {rk}")]
             return (E, D)
 
         def opt(I, *a):
@@ -167,11 +193,18 @@ def unit_fit_plateau(prop, tier=None, seed=None):
             return SReal(dopt)
 
         def _fit_contract(I, self):
+            # contract of _fit (proved separately): with too few points it reports success False and writes nothing
             snap = self.attrs["fit_range"].snap()
-            pf, _ = sym_parameters(I, FT.PN, prefix=f"pass{len(passes)}")
-            self.attrs["fp"].map.d["params_fitted"] = [True, pf]
-            self.attrs["fp"].map.d["success"] = [True, True]
-            passes.append(dict(mask=snap, flag=self.attrs["optimal_fit_edelta"]))
+            ok = I.fork(z3.Bool(f"pass{len(passes)}_has_enough_points"))
+            if ok:
+                pf, _ = sym_parameters(I, FT.PN, prefix=f"pass{len(passes)}")
+                self.attrs["fp"].map.d["params_fitted"] = [True, pf]
+                for rk in ("chi_sqr", "xmin", "xmax"):
+                    self.attrs["fp"].map.d[rk] = [True, SReal(z3.Real(f"{rk}_pass{len(passes)}"))]
+                self.attrs["fp"].map.d["success"] = [True, True]
+            else:
+                self.attrs["fp"].map.d["success"] = [True, False]
+            passes.append(dict(mask=snap, flag=self.attrs["optimal_fit_edelta"], ok=ok))
         cls.ns["compute_emodulus_vs_mindelta"] = sx.Builtin("scan", scan)
         cls.ns["compute_opt_mindelta"] = sx.Builtin("opt", lambda I, *a: opt(I, *a))
         cls.ns["_fit"] = sx.Builtin("IndentationFitter._fit", _fit_contract)
@@ -205,6 +238,12 @@ def unit_fit_plateau(prop, tier=None, seed=None):
             want = z3.And(seg.uf(i), z3.Or(dopt == up, inside))
             S.ensure("final_fit_uses_optimal_indentation_to_upper_bound",
                      z3.Implies(z3.And(i >= 0, i < n), V.bterm(passes[-1]["mask"](i)) == want))
+        if passes and not passes[-1]["ok"]:
+            # "an unsuccessful fit leaves NaN columns and success False instead of stale numbers"
+            left = [rk for rk in ("params_fitted", "chi_sqr", "xmin", "xmax")
+                    if o.attrs["fp"].map.d.get(rk, [False])[0] is not False]
+            S.ensure("unsuccessful_fit_reports_no_stale_results", not left, case={"left_behind": left},
+                     witness="plateau_search")
         S.ensure("plateau_flag_on_again_afterwards", o.attrs["optimal_fit_edelta"] is True)
         S.ensure("stored_range_not_modified", I.valid(z3.And(*[V.rterm(a) == V.rterm(b) for a, b in
                                                               zip(fp.map.d["range_x"][1], st["fp_range0"])])))
@@ -215,6 +254,6 @@ def unit_fit_plateau(prop, tier=None, seed=None):
 
 def units_for(prop):
     us = [Unit("compute_emodulus_vs_mindelta", unit_scan, prop=prop)]
-    if prop == "C05":
+    if prop in ("C05", "C04"):
         us.append(Unit("fit.plateau_search", unit_fit_plateau, prop=prop))
     return us
